@@ -2,7 +2,7 @@
 # tools/eval_mutant.sh <mutdir> <prop> [tier]: runs the registered check of <prop> against the seeded change
 # (applied in the scratch worktree /tmp/wt_eval, never in /repo) and prints the verdict.
 mut=$1; prop=$2; tier=${3:-quick}
-wt=/tmp/wt_eval
+wt=${WT:-/tmp/wt_eval}
 export GOFLAGS=-mod=mod GOPROXY=off
 [ -d $wt ] || git -C /repo worktree add -q --detach $wt HEAD
 cd $wt && git checkout -q --detach $(git -C /repo rev-parse HEAD) && git checkout -q -- . && git apply $mut/patch.diff || { echo "$mut $prop APPLY-FAIL"; exit 2; }
